@@ -8,6 +8,12 @@ Inductive rec_call :=
 | CallEvent (r_op : operation) (group resource subresource : string) (e : event)
 | CallReset.
 
+(** [n] copies of a call (the concurrent run is reported as its multiset of calls: by
+    C18_exact_any_order the interleaving does not matter) *)
+Definition repeat_calls (l : list (nat * rec_call)) : list rec_call :=
+  flat_map (fun x : nat * rec_call => repeat (snd x) (fst x)) l.
+Definition rc (n : nat) (c : rec_call) : nat * rec_call := (n, c).
+
 Record c18_case := C18Case {
   c18_server_major : N;                 (* 1 for a real server; 0 = the zero version GetAPIVersion returns for an unstamped binary *)
   c18_server_minor : N;
@@ -42,8 +48,23 @@ Definition ops_of (server_minor : N) (calls : list rec_call) : list rec_op :=
 Definition version_label_of (k : series) : option string :=
   if String.eqb (fst k) "pod_security_evaluations_total" then nth_error (snd k) 2 else None.
 
+(** the same relation as [P18_counts], evaluated with the recorded series de-duplicated first
+    (the specification text is quadratic in the history length; used for long histories only) *)
+Fixpoint dedup_series (l : list series) : list series :=
+  match l with
+  | [] => []
+  | k :: r => k :: filter (fun k' => negb (series_eqb k k')) (dedup_series r)
+  end.
+Definition P18_counts_long (ops : list rec_op) (gathered : list (series * N)) : bool :=
+  let recs := since_reset ops [] in
+  let count k := N.of_nat (List.length (filter (series_eqb k) recs)) in
+  forallb (fun kv : series * N => N.eqb (snd kv) (count (fst kv))) gathered
+  && forallb (fun k => existsb (fun kv : series * N => series_eqb k (fst kv)) gathered) (dedup_series recs).
+Definition counts_ok (ops : list rec_op) (gathered : list (series * N)) : bool :=
+  if Nat.leb (List.length ops) 200 then P18_counts ops gathered else P18_counts_long ops gathered.
+
 Definition propfail_c18 (c : c18_case) : bool :=
-  negb (P18_counts (ops_of_v (server_of c) (c18_calls c)) (c18_gathered c))
+  negb (counts_ok (ops_of_v (server_of c) (c18_calls c)) (c18_gathered c))
   || existsb (fun kv : series * N =>
                 match version_label_of (fst kv) with
                 | Some l => negb (label_ok c l)
